@@ -339,7 +339,7 @@ Proof.
   destruct (nth_error (c_ops C1) p) as [[k al rid ph]|] eqn:Ep.
   2:{ cbn [fst]. apply (SInv_discharge _ _ _ _ _ S1). intros o rest i' h' Hp. congruence. }
   assert (nth_error (c_ops C1) p <> None) as Np by congruence.
-  destruct ph as [rest i' h'| | |];
+  destruct ph as [rest i' h'| | | |];
     try (cbn [fst]; apply (SInv_discharge _ _ _ _ _ S1); intros o rest0 i0 h0 Hp Hph; rewrite Ep in Hp; injection Hp as <-; discriminate).
   destruct (Nat.eqb i i' && Nat.eqb h h') eqn:Em.
   2:{ cbn [fst]. apply (SInv_discharge _ _ _ _ _ S1). intros o rest0 i0 h0 Hp Hph. rewrite Ep in Hp. injection Hp as <-.
@@ -566,8 +566,21 @@ Proof.
   assert (SInv None ex (set_phase C p PDone)) as S1.
   { rewrite <- (exc_clear exc p X). apply set_phase_S; [exact S|]. intros rest i h E. discriminate. }
   assert (TInvC pend (set_phase C p PDone)) as T1 by (eapply TInvC_same_core; [exact T | apply set_phase_core]).
-  destruct (o_kind o =? 1); [|exact S1]. destruct (closing (set_phase C p PDone)); [exact S1|].
-  pose proof (merge_S ex pend _ (drop 4 f) (o_all o) T1 S1) as Y. destruct (merge (set_phase C p PDone) (drop 4 f) (o_all o)). exact Y.
+  destruct (o_kind o =? 1).
+  - destruct (closing (set_phase C p PDone)); [exact S1|].
+    pose proof (merge_S ex pend _ (drop 4 f) (o_all o) T1 S1) as Y. destruct (merge (set_phase C p PDone) (drop 4 f) (o_all o)). exact Y.
+  - destruct (is_ltp (o_kind o)); [|exact S1]. destruct (closing (set_phase C p PDone)); [exact S1|].
+    pose proof (merge_S ex pend _ (drop 4 f) false T1 S1) as Y. destruct (merge (set_phase C p PDone) (drop 4 f) false) as [C2 o2]. cbn [fst] in Y.
+    destruct (missing (drop 4 f)); [|exact Y]. unfold new_timer. cbn [fst].
+    apply (set_phase_S None); [eapply SInv_frame; [| | |exact Y]; reflexivity|]. intros rest i h E. discriminate.
+Qed.
+
+Lemma restart_op_S ex C p rid : SInv None ex C -> SInv None ex (restart_op C p rid).
+Proof.
+  intros [K O P]. constructor; [exact K | exact O|].
+  intros p' o rest i h Hp Hph. unfold restart_op in Hp. cbn [c_ops with_ops] in Hp. apply nth_upd_inv in Hp.
+  change (cores (restart_op C p rid)) with (cores C).
+  destruct Hp as [[<- (o0 & Ho0 & ->)]|[N Hp]]; [discriminate Hph | exact (P p' o rest i h Hp Hph)].
 Qed.
 
 Lemma succ1_S : true = true -> forall ex pend C p f i h, TInvC pend C -> SInv (Some (i, h, p)) ex C ->
@@ -585,13 +598,15 @@ Proof.
   set (X := match nth_error (c_ops C) p with
             | Some (mkOp _ _ _ (PBootConn a rest)) => let (C', o') := boot_next (set_boot C a KDead) p rest in (C', OBootCancel a :: o')
             | Some (mkOp _ _ _ (PBootReq a t rest)) => let (C', o') := boot_next C p rest in (C', OCancelTimer t :: OBootLose a :: o')
+            | Some (mkOp _ _ _ (PWait t)) => let (C', o') := op_fail C p RCancelled in (C', OCancelTimer t :: o')
             | _ => (C, []) end).
   assert (SInv None ex (fst X)) as S1.
   { unfold X. destruct (nth_error (c_ops C) p) as [[k al rid ph]|] eqn:Eo; [|exact Sv]. destruct ph; try exact Sv.
     - assert (SInv None ex (set_boot C a KDead)) as S0 by (eapply SInv_frame; [| | |exact Sv]; reflexivity).
       pose proof (boot_next_S None ex (set_boot C a KDead) p rest S0 I) as Y.
       destruct (boot_next (set_boot C a KDead) p rest). cbn [fst] in *. apply Y. cbn [c_ops set_boot with_boots]. congruence.
-    - pose proof (boot_next_S None ex C p rest Sv I) as Y. destruct (boot_next C p rest). cbn [fst] in *. apply Y. congruence. }
+    - pose proof (boot_next_S None ex C p rest Sv I) as Y. destruct (boot_next C p rest). cbn [fst] in *. apply Y. congruence.
+    - pose proof (op_fail_S None ex C p RCancelled Sv I) as Y. destruct (op_fail C p RCancelled). cbn [fst] in *. apply Y. congruence. }
   destruct X as [C1 o1]. cbn [fst] in S1. pose proof (IH ex C1 (S p) S1) as Y. destruct (cancel_boots C1 n (S p)). exact Y.
 Qed.
 
@@ -649,7 +664,7 @@ Proof.
   - apply (ev_bc_S [] []); auto.
   - apply (ev_bc_S [] []); auto.
   - (* ETimer *)
-    destruct (nth_error (c_timers C) t) as [[i h|i|p a]|]; [| | |exact Sv].
+    destruct (nth_error (c_timers C) t) as [[i h|i|p a|p]|]; [| | | |exact Sv].
     + unfold creq_at. destruct (nth_error (c_bcs C) i) as [b|] eqn:Eb; [|exact Sv].
       destruct (nth_error (b_reqs b) h) as [[ow [t'|] to]|] eqn:Eq; try exact Sv.
       destruct (Nat.eqb t t'); [|exact Sv].
@@ -686,6 +701,14 @@ Proof.
     + unfold phase_of. destruct (nth_error (c_ops C) p) as [o|] eqn:Eo; [|exact Sv].
       destruct (o_phase o); try exact Sv. destruct (Nat.eqb a a0 && Nat.eqb t t0); [|exact Sv].
       pose proof (boot_next_S None [] C p rest Sv I) as Y. destruct (boot_next C p rest). cbn [fst] in *. apply Y. congruence.
+    + unfold phase_of. destruct (nth_error (c_ops C) p) as [[k al rid0 ph]|] eqn:Eo; [|exact Sv]. cbn [o_phase].
+      destruct ph; try exact Sv. destruct (Nat.eqb t t0); [|exact Sv]. unfold next_id. cbn [fst snd].
+      set (C1 := with_corr C _). set (C2 := restart_op C1 p _).
+      assert (TInvC [] C2) as T2 by (eapply TInvC_same_core; [exact T | unfold C2, C1; score]).
+      assert (SInv None [] C2) as S2 by (apply restart_op_S; eapply SInv_frame; [| | |exact Sv]; reflexivity).
+      assert (nth_error (c_ops C2) p <> None) as N2.
+      { unfold C2, restart_op. cbn [c_ops with_ops with_corr]. rewrite (nth_upd_same _ _ _ _ Eo). discriminate. }
+      destruct (c_clients C2); [apply (op_known_S _ None [] []); auto; exact I | apply (op_fail_S None); auto; exact I].
   - (* EBootOk *)
     destruct (nth_error (c_boots C) a) as [[[p rid] [| |]]|]; try exact Sv.
     destruct (phase_of C p); try exact Sv. destruct (Nat.eqb a a0); [|exact Sv].
